@@ -1099,6 +1099,33 @@ func genAV1C08(x *Ctx) {
 			}
 		}
 	}
+	// the k-th element of a packet (k = 0..5 small OBUs in front, so that from the fourth element on W = 0
+	// and EVERY element carries a length field) meets a free space f around the LEB128 boundaries 128 and
+	// 16384, and the OBU that goes there is a little shorter, exactly as long, a little or much longer than
+	// what fits: MTU = 1 + 3k + f.  (seed C08-r7-2: the length field of a trimmed element grows back)
+	for _, f := range []int{125, 126, 127, 128, 129, 130, 131, 132, 16381, 16382, 16383, 16384, 16385, 16386, 16387, 16388, 16389} {
+		for k := 0; k <= 5; k++ {
+			for _, dl := range []int{-3, -2, -1, 0, 1, 2, 3, 300} {
+				f, k, dl := f, k, dl
+				if f > 16000 && x.Tier != "thorough" && (k != 0 && k != 3 && k != 4) {
+					continue
+				}
+				x.Case(func(c *Case) {
+					var obus []av1Obu
+					for j := 0; j < k; j++ {
+						obus = append(obus, av1Obu{typ: 6, hasSize: true, payload: []byte{byte(0xa0 + j)}})
+					}
+					L := f + dl
+					obus = append(obus, av1Obu{typ: 6, hasSize: true, payload: c.R.Bytes(L - 1)})
+					if c.R.Bool() {
+						obus = append(obus, av1Obu{typ: 6, hasSize: c.R.Bool(), payload: c.R.Bytes(c.R.Range(0, 3))})
+					}
+					c.Tag("kth-element-meets-leb-boundary")
+					run(c, []PayCall{{uint16(1 + 3*k + f), av1Serialise(obus)}})
+				})
+			}
+		}
+	}
 	for i, n := 0, x.N(9000, 500000); i < n; i++ {
 		x.Case(func(c *Case) {
 			k := c.R.Range(1, 4)
